@@ -175,6 +175,10 @@ def rest_api():
     # a request WITHOUT any required field: `$alt` (numeric enums) must not depend on there being one
     fb.message("ListRequest", [("filter", "string"), ("kind", "enum:Kind"), ("page", "int32")])
     fb.method(s, "ListThings", "ListRequest", "Book", http=("get", "/v1/things"))
+    # request / response types from another package (raw protobuf, not proto-plus): the reply is parsed into the RESPONSE
+    # type as it is, whatever the request type is
+    fb.method(s, "GetHealth", "DeleteRequest", "google.rpc.Status", http=("get", "/v1/{name=things/*}:health"))
+    fb.method(s, "Report", "google.rpc.Status", "Book", http=("post", "/v1/report", "*"))
     # server streaming over REST (the reply is a ResponseIterator of the item type)
     fb.method(s, "WatchThings", "DeleteRequest", "Book", http=("get", "/v1/{name=things/*}:watch"), sstream=True)
     return [fb]
